@@ -1,12 +1,12 @@
 //@target src/decoder/planes.rs
 //@props C03,C11,C12,C16,C19,C01
-//@needs L2_row
+//@needs L2_row,C16_counters
 //@rewrite {"file":"src/decoder/planes.rs","line":"collections::HashMap,","replace":["collections::HashMap as StdHashMapNotUsedUnderKani,"],"append":["#[cfg(kani)] use crate::verif_models::VMap as HashMap;","#[cfg(not(kani))] use StdHashMapNotUsedUnderKani as HashMap;"],"why":"std HashMap is out of CBMC's reach; VMap is the stated finite-map contract model (/verif/models)"}
 //@assume std::collections::HashMap behaves as a finite map with unique keys (entry/and_modify/or_insert/retain/iter as modelled by /verif/models VMap); table obligations are BOUNDED to 2 existing rows (3 in the thorough tier)
 //@assume in L3.table.* the row-step functions (Plane::update, update_from_downlink<DF>, Plane::from_downlink) are replaced by ghost recorders that mark the row they are given; their own contracts are L2.*
 
 #[cfg(kani)]
-mod verif_l3_table {
+pub(crate) mod verif_l3_table {
     use super::*;
     use crate::decoder::plane::verif_row::*;
     use crate::decoder::Srt;
@@ -63,7 +63,7 @@ mod verif_l3_table {
     }
 
     /// a cheap concrete row of a given key (contents irrelevant here: the row step is L2's)
-    fn row(icao: u32) -> Plane {
+    pub fn row(icao: u32) -> Plane {
         let t = mk_time(100, 10);
         Plane {
             icao,
